@@ -44,7 +44,7 @@ def digest_inputs(ctx):
     for d, suf in ((os.path.join(REPO, 'pysyncobj'), '.py'), (os.path.join(VERIF, 'harness'), '.py'),
                    (os.path.join(VERIF, 'coq', 'Raft'), '.v')):
         for f in sorted(os.listdir(d)):
-            if f.endswith(suf) and (d.endswith('pysyncobj') or d.endswith('Raft') or f.startswith(('sim', 'raft_'))):
+            if f.endswith(suf) and (d.endswith('pysyncobj') or f in ('Types.v', 'Node.v', 'Net.v', 'Obs.v') or f.startswith(('sim', 'raft_'))):
                 files.append(os.path.join(d, f))
     files.append(os.path.join(VERIF, 'props', 'raftcommon.py'))
     for f in files:
